@@ -87,7 +87,13 @@ SPECIAL_KEYS = ["T", "F", "N", "D0000000000000000", "D8000000000000000", "D7ff00
                 "t( t( ) )", "t( S61 Y61 )", "t( Y61 S61 )", "X0", "X1",
                 # the three string kinds inside struct-typed keys (Ref id, Call arguments), bare and wrapped once more
                 "R( B61 )", "R( S- )", "R( B- )", "R( Y- )", "t( R( S61 ) I1 )", "t( R( B61 ) I1 )", "t( R( Y61 ) I1 )", "R( R( S61 ) )",
-                "R( R( B61 ) )", "c( C6d.6e S61 )", "c( C6d.6e B61 )", "c( C6d.6e Y61 )", "R( t( S61 ) )", "R( t( B61 ) )"]
+                "R( R( B61 ) )", "c( C6d.6e S61 )", "c( C6d.6e B61 )", "c( C6d.6e Y61 )", "R( t( S61 ) )", "R( t( B61 ) )",
+                # struct-typed keys whose payload is zero / empty in each Go representation (int 0, *big.Int 0, +-0.0, false, uint 0, the
+                # empty tuple as a non-nil and as a nil slice): one Python value, whether or not it is the Go zero value
+                "R( I0 )", "R( L0 )", "R( D0000000000000000 )", "R( D8000000000000000 )", "R( F )", "R( U0 )", "R( E80000000 )",
+                "R( Z0000000000000000,0000000000000000 )", "R( Z8000000000000000,0000000000000000 )", "c( C6d.6e I0 )", "c( C6d.6e L0 )",
+                "c( C6d.6e D8000000000000000 )", "t( R( I0 ) )", "t( R( L0 ) )", "R( R( L0 ) )", "R( R( I0 ) )", "R( t( ) )", "R( t0 )",
+                "t0", "t( t0 )", "t( t0 I1 )", "t( t( ) I1 )", "c( C6d.6e t0 )", "c( C6d.6e t( ) )", "R( N )", "R( S- )", "I0", "L0"]
 
 
 def rand_key(rng, depth=0):
@@ -204,6 +210,8 @@ def _pykey(tok):
         elif t[0] == "E":
             f = struct.unpack(">f", struct.pack(">I", int(t[1:], 16)))[0]
             out.append("D%016x" % V.f64bits(f))
+        elif t == "t0":
+            out += ["t(", ")"]
         else:
             out.append(t)
     return " ".join(out)
@@ -214,7 +222,9 @@ def _pykey(tok):
 ALPHABET = ["I1", "D3ff0000000000000", "T", "L1", "S61", "B61", "Y61", "t( I1 S61 )", "t( D3ff0000000000000 Y61 )", "t( L1 B61 )"]
 # keys in which the non-transitive ByteString sits deeper: inside a nested tuple, a Ref id, Call arguments
 NESTED = ["t( I1 t( S61 ) )", "t( I1 t( B61 ) )", "t( I1 t( Y61 ) )", "R( S61 )", "R( B61 )", "R( Y61 )",
-          "c( C6d.6e S61 )", "c( C6d.6e B61 )", "c( C6d.6e Y61 )", "R( t( S61 ) )", "R( t( Y61 ) )", "R( t( B61 ) )"]
+          "c( C6d.6e S61 )", "c( C6d.6e B61 )", "c( C6d.6e Y61 )", "R( t( S61 ) )", "R( t( Y61 ) )", "R( t( B61 ) )",
+          # one Python value in two Go representations: the empty tuple as a non-nil and as a nil slice; zero as int64 and as *big.Int
+          "t( )", "t0", "R( t( ) )", "R( t0 )", "t( t0 I1 )", "t( t( ) L1 )", "R( I0 )", "R( L0 )"]
 
 
 def ref_history(ops):
